@@ -351,6 +351,12 @@ func c18History(c *vc.Ctx, idx int) {
 			p.ExitingDuration = 30 * time.Second
 		},
 		Relayer: func(g *relayertypes.GenesisState) { g.Params.ElectingPeriod = 40 * time.Second }}
+	// every third voter candidate already owns an account when it registers (as a returning member or any funded
+	// address would): such a voter is parked for removal straight away instead of boarding
+	candMember := func(n int) *world.Member { return world.NewMember(c.Seed, fmt.Sprintf("c18cand-%d", idx), n) }
+	for n := 1; n < 40; n += 3 {
+		cfg.ExtraAccounts = append(cfg.ExtraAccounts, candMember(n).Addr)
+	}
 	lh, err := newLockHistSchnorr(c, cfg, idx, idx%2 == 1)
 	if err != nil {
 		c.Inconclusive("setup: %v", err)
@@ -410,7 +416,7 @@ func c18History(c *vc.Ctx, idx int) {
 		// relayer membership: pending voters, boarding voters, off-boarding members
 		var rq goattypes.RelayerRequests
 		if r.Intn(6) == 0 {
-			m := world.NewMember(c.Seed, fmt.Sprintf("c18cand-%d", idx), len(cands))
+			m := candMember(len(cands))
 			kh := sha256.Sum256(m.BLSPub)
 			cands = append(cands, &candidate{m: m, regHeight: uint64(lh.ch.Height + 1), hashOK: true, state: "pending"})
 			rq.Adds = append(rq.Adds, &goattypes.AddVoterRequest{Voter: common.BytesToAddress(m.Addr), Pubkey: common.BytesToHash(kh[:])})
